@@ -79,6 +79,96 @@ theorem blacklisted_only_as_last_resort (fl : Flags) (idx : Option Bool) (vs : L
   | newestStable _ _ _ h4 => have := selectable_not_bl h4.2.1.2; simp [hbl] at this
   | fallback _ h2 h3 h4 h5 => exact ⟨⟨h2, h3, h4⟩, h5⟩
 
+/-! ### Purge -/
+
+/-- Purge neither removes a file of the active version, the selected version or the newest stable version,
+    nor drops such a version from the list — for every `keep`, all flags, every order of the list. -/
+theorem purge_keeps_required (r : Res) (keep : Int) (hn : VerNodup r.versions) (v : Ver) (hreq : Required r v) :
+    (∀ k, (v, k) ∈ r.disk → (v, k) ∈ (r.purge keep).disk) ∧
+    (∀ rv ∈ r.versions, rv.ver = v → rv ∈ (r.purge keep).versions) := by
+  rcases purge_shape r keep with ⟨l', hp, he⟩ | ⟨i, hi, hlt, he⟩
+  · rw [he]; exact ⟨fun k h => h, fun rv h _ => hp.mem_iff.mpr h⟩
+  · rw [he]
+    constructor
+    · intro k hk
+      refine mem_purge_disk.mpr ⟨hk, ?_⟩
+      intro g hg _ hgv
+      have h1 := required_before_boundary hn hi hreq (List.mem_of_mem_drop hg) hgv
+      exact verNodup_cut (verNodup_sortDesc hn) _ (mem_take_mono (keepOf keep) h1) hg rfl
+    · intro rv hrv hrvv
+      exact mem_take_mono (keepOf keep) (required_before_boundary hn hi hreq (mem_sortDesc.mpr hrv) hrvv)
+
+/-- Whenever Purge removes anything (an entry or a file), at least `max keep 2` *further* versions — none of them
+    active, selected or the newest stable one — stay listed (and, by `purge_removes_only_unlisted`, keep their files). -/
+theorem purge_keeps_further (r : Res) (keep : Int) (hn : VerNodup r.versions)
+    (hpurged : (r.purge keep).versions.length ≠ r.versions.length ∨ (r.purge keep).disk ≠ r.disk) :
+    ∃ further : List RV, further.length = keepOf keep ∧ 2 ≤ keepOf keep ∧ (keep ≥ 2 → keepOf keep = keep.toNat) ∧
+      further.Sublist (r.purge keep).versions ∧ ∀ e ∈ further, ¬Required r e.ver := by
+  rcases purge_shape r keep with ⟨l', hp, he⟩ | ⟨i, hi, hlt, he⟩
+  · rw [he] at hpurged
+    rcases hpurged with h | h
+    · exact absurd hp.length_eq h
+    · exact absurd rfl h
+  · rw [he]
+    refine ⟨((sortDesc r.versions).take (i + keepOf keep)).drop i, ?_, ?_, ?_, List.drop_sublist _ _, ?_⟩
+    · simp only [List.length_drop, List.length_take]; omega
+    · unfold keepOf; split <;> omega
+    · intro h; unfold keepOf; split <;> omega
+    · intro e he hreq
+      have he' : e ∈ (sortDesc r.versions).drop i := by
+        rw [List.drop_take] at he
+        exact List.mem_of_mem_take he
+      have h1 := required_before_boundary hn hi hreq (List.mem_of_mem_drop he') rfl
+      exact verNodup_cut (verNodup_sortDesc hn) i h1 he' rfl
+
+/-- Purge removes only files of versions it also drops from the list; it never adds files or entries and leaves
+    the selected and active version untouched. -/
+theorem purge_removes_only_unlisted (r : Res) (keep : Int) (hn : VerNodup r.versions) :
+    (∀ rv ∈ (r.purge keep).versions, ∀ k, (rv.ver, k) ∈ r.disk → (rv.ver, k) ∈ (r.purge keep).disk) ∧
+    (∀ rv ∈ (r.purge keep).versions, rv ∈ r.versions) ∧
+    (∀ fk ∈ (r.purge keep).disk, fk ∈ r.disk) ∧
+    (r.purge keep).selected = r.selected ∧ (r.purge keep).active = r.active := by
+  rcases purge_shape r keep with ⟨l', hp, he⟩ | ⟨i, hi, hlt, he⟩
+  · rw [he]; exact ⟨fun _ _ _ h => h, fun rv h => hp.mem_iff.mp h, fun _ h => h, rfl, rfl⟩
+  · rw [he]
+    refine ⟨?_, fun rv h => mem_sortDesc.mp (List.mem_of_mem_take h), fun fk h => (mem_purge_disk.mp h).1, rfl, rfl⟩
+    intro rv hrv k hk
+    refine mem_purge_disk.mpr ⟨hk, ?_⟩
+    intro g hg _ hgv
+    exact verNodup_cut (verNodup_sortDesc hn) _ hrv hg hgv.symm
+
+/-- After a purge the resource lists as available only versions whose file is on disk
+    (if that was the case before: Purge itself never breaks it). -/
+theorem purge_listing_sound (r : Res) (keep : Int) (hn : VerNodup r.versions) (h : ListingSound r) :
+    ListingSound (r.purge keep) := by
+  intro rv hrv ha
+  have hp := purge_removes_only_unlisted r keep hn
+  exact hp.1 rv hrv 0 (h rv (hp.2.1 rv hrv) ha)
+
+/-- Everything Purge drops is older than everything it keeps. -/
+theorem purge_drops_only_older (r : Res) (keep : Int) (hn : VerNodup r.versions) (g e : RV)
+    (hg : g ∈ r.versions) (hgone : g ∉ (r.purge keep).versions) (he : e ∈ (r.purge keep).versions) :
+    g.ver.lt e.ver = true := by
+  rcases purge_shape r keep with ⟨l', hp, hpe⟩ | ⟨i, hi, hlt, hpe⟩
+  · rw [hpe] at hgone; exact absurd (hp.mem_iff.mpr hg) hgone
+  · rw [hpe] at hgone he
+    have hgs : g ∈ (sortDesc r.versions).take (i + keepOf keep) ++ (sortDesc r.versions).drop (i + keepOf keep) := by
+      rw [List.take_append_drop]; exact mem_sortDesc.mpr hg
+    rcases List.mem_append.mp hgs with h | h
+    · exact absurd h hgone
+    · have h1 := sorted_cut (sortDesc_sorted r.versions) _ he h
+      have h2 := verNodup_cut (verNodup_sortDesc hn) _ he h
+      cases hlt' : g.ver.lt e.ver
+      · exact absurd (Ver.lt_total _ _ h1 hlt') h2
+      · rfl
+
+/-- While any version is blacklisted, Purge does nothing at all. -/
+theorem purge_paused_by_blacklist (r : Res) (keep : Int) (rv : RV) (hrv : rv ∈ r.versions) (hbl : rv.bl = true) :
+    r.purge keep = r := by
+  unfold Res.purge
+  have : r.versions.any (·.bl) = true := List.any_eq_true.mpr ⟨rv, hrv, hbl⟩
+  simp [this]
+
 /-! ### Regenerated regex literals -/
 
 /-- The two regular expressions the hand-written matchers `matchFileVer` / `matchRawVersion` implement. -/
